@@ -31,6 +31,12 @@ func ProfileFor(prop string) Profile {
 	case "limit":
 		p.MaxHeight = 6
 		p.WBind = 25
+	case "wide":
+		p.Wide = true
+		p.MapNShare = 35
+		p.WAddRemove = 14
+		p.WBind = 10
+		p.Ops = 30
 	case "reject":
 		p.MaxHeight = 7
 		p.WBind = 25
